@@ -67,6 +67,7 @@ for v in res['violations']:
     again = c.run_harness_parallel(stor, ['-mode', 'segapi'], [b], name='c19r', procs=1)
     if not [x for x in again['violations'] if x['signature'] == v['signature']]:
         c.unreproduced('violation %s not reproduced' % v['signature'])
+        continue
     c.report('segment:' + v['signature'], v['detail'], {'behaviour': b, 'harness': 'stor/segapi'})
 c.log('segment level: %d behaviours with snapshot + housekeeping steps replayed (%d steps)' % (res['behaviours'], res['steps']))
 
